@@ -15,6 +15,7 @@ import (
 	"github.com/jirenius/go-res/logger"
 	"github.com/jirenius/go-res/store"
 	"github.com/jirenius/go-res/store/badgerstore"
+	"github.com/jirenius/go-res/store/mockstore"
 	"github.com/jirenius/keylock"
 	"github.com/jirenius/taskqueue"
 
@@ -44,6 +45,9 @@ type RaceCase struct {
 	QueryMs  int        `json:"query_ms"`
 	StdLog   bool       `json:"std_log"`
 	Optional []string   `json:"optional"`
+	// Mock: two tasks also write to a fresh mockstore, starting with its very
+	// first transactions
+	Mock [][]string `json:"mock,omitempty"`
 	// Overlap: the next epoch is served by another goroutine as soon as
 	// Shutdown returned, whether or not the previous Serve call has
 	Overlap bool `json:"overlap,omitempty"`
@@ -101,6 +105,16 @@ func (RaceScenario) GenCase(r *rand.Rand, prop string) interface{} {
 			c.Muts = append(c.Muts, sc)
 		}
 		c.Queries = r.IntN(4)
+	}
+	if chance(r, 40) {
+		for mi := 0; mi < 2; mi++ {
+			var sc []string
+			for i, n := 0, 1+r.IntN(4); i < n; i++ {
+				id := pick(r, ids...)
+				sc = append(sc, pick(r, "create:"+id+":a", "create:"+id+":b", "update:"+id+":c", "delete:"+id, "read:"+id))
+			}
+			c.Mock = append(c.Mock, sc)
+		}
 	}
 	return c
 }
@@ -277,7 +291,10 @@ func (RaceScenario) Execute(sim *sched.Sim, ci interface{}, prop string, race bo
 	})
 	// a group built from a path parameter (slots 9..12)
 	svc.Handle("tag.$id", res.Group("tg.${id}"),
-		res.GetModel(func(r res.ModelRequest) { handler(9+idIndex(r.PathParam("id")), true)(r); r.Model(map[string]int{"t": 1}) }),
+		res.GetModel(func(r res.ModelRequest) {
+			handler(9+idIndex(r.PathParam("id")), true)(r)
+			r.Model(map[string]int{"t": 1})
+		}),
 		res.Call("set", func(r res.CallRequest) { handler(9+idIndex(r.PathParam("id")), true)(r); r.OK(nil) }),
 	)
 	// one shared group
@@ -321,6 +338,11 @@ func (RaceScenario) Execute(sim *sched.Sim, ci interface{}, prop string, race bo
 		svc.Handle("item.$id", res.GetModel(func(r res.ModelRequest) { r.NotFound() }))
 		svc.Handle("items", res.GetCollection(func(r res.CollectionRequest) { r.Collection([]int{}) }))
 	}
+	// an in-memory store nobody has written to yet
+	// (no handler serves it: the store holds one lock for a whole
+	// transaction, and a change callback that parked at a yield point inside
+	// it would block the other writer in a way the bubble cannot see)
+	mock := mockstore.NewStore()
 	for i := 0; i < c.Epochs && i < len(rr.conns); i++ {
 		cn := simconn.New(sim)
 		cn.OnPublish = rr.noteQuerySubject
@@ -363,6 +385,10 @@ func (RaceScenario) Execute(sim *sched.Sim, ci interface{}, prop string, race bo
 	for pi := range c.Prods {
 		script := c.Prods[pi]
 		tasks = append(tasks, sim.Go("prod"+strconv.Itoa(pi+1), func() { rr.producer(script) }))
+	}
+	for mi := range c.Mock {
+		script := c.Mock[mi]
+		tasks = append(tasks, sim.Go("mock"+strconv.Itoa(mi+1), func() { rr.mockMutator(mock, script) }))
 	}
 	if c.Store {
 		for mi := range c.Muts {
@@ -547,6 +573,30 @@ func (rr *raceRun) mutator(st *badgerstore.Store, script []string) {
 	for i, op := range script {
 		rr.sim.Yield("mut.op", strconv.Itoa(i))
 		parts := strings.Split(op, ":")
+		wt := st.Write(parts[1])
+		switch parts[0] {
+		case "create":
+			wt.Create(raceItem{K: parts[2]})
+		case "update":
+			wt.Update(raceItem{K: parts[2]})
+		case "delete":
+			wt.Delete()
+		}
+		wt.Close()
+	}
+}
+
+func (rr *raceRun) mockMutator(st *mockstore.Store, script []string) {
+	for i, op := range script {
+		rr.sim.Yield("mut.op", strconv.Itoa(i))
+		parts := strings.Split(op, ":")
+		if parts[0] == "read" {
+			rt := st.Read(parts[1])
+			rt.Exists()
+			rt.Value()
+			rt.Close()
+			continue
+		}
 		wt := st.Write(parts[1])
 		switch parts[0] {
 		case "create":
